@@ -18,7 +18,9 @@ CLAIMED = {
          "endings and parameters (induction). Tie: every run compares, case by case, implementation log = ReactiveX list spec (theorem RHS) = chain of "
          "kernel runs (theorem LHS) = object machine (which executes the same kernels through stdOp) on ~2.5k cases incl. all operator pairs. The link kernel "
          "chain = object machine is itself a theorem: Rx.Sim.stdOp_sim (one operator) and Rx.Chain.chain_sim (chains of ANY length, any well-encoded "
-         "kernels, any ready world: machine log = chainRun); time_interval / timestamp (values abstracted) in C02c.",
+         "kernels, any ready world: machine log = chainRun); time_interval / timestamp (values abstracted) in C02c; window_with_count / group_by (items are "
+         "observables: global (subscriber, event) traces) in C02d: window_trace, window_root, window_inner, group_root, group_inner - the pure machines of the two "
+         "operators' closures equal the per-subscriber ReactiveX characterisation; machine = those pure machines is a per-run differential check.",
          "§5 C02", "Lean 4 proof: kernel = list specification by induction, machine = kernel chain by simulation (chain_sim) + per-run four-way differential correspondence"),
  "C04": ("Theorems Rx.C04.* (C04k: error passthrough for every non-handler kernel, same payload, terminal last, items before the error delivered; "
          "C04r: retry/retry_when/on_error_resume_next equal their list specs, subscription counts exact; demat_mat). REFINEMENT (C04Ref*.lean): the object "
@@ -54,7 +56,9 @@ CLAIMED = {
          "(machine layer, from Rx.Sim.stdOp_sim_cancel) in the object machine - StreamController transliterated call by call - the observer an operator handed "
          "to its source is unsubscribed exactly when the kernel semantics says cancelled, from ANY ready start world; take/take_while stop an endless producer. "
          "Multi-input teardown is covered by the history machines of C03 (per-input cancellation) and by exploration. Tie: probed sources recording "
-         "is_subscribed before every emission, subject observer counts, every terminating cause of the statement; TornDown predicate on implementation traces.",
+         "is_subscribed before every emission, subject observer counts, every terminating cause of the statement (incl. connectables and two hot inputs that keep "
+         "emitting after the operator's decision); TornDown predicate on implementation traces. One known finding (F18: ref_count / replay over a synchronous "
+         "source, last subscriber leaving during the connecting subscribe) is reported as KNOWN-FINDING, matched by call site.",
          "§5 C06", "Lean 4 proof: simulation theorem machine = kernel semantics incl. cancellation + per-run correspondence on probed sources"),
  "C08": ("Theorems Rx.Queue.* (C08.lean, 21 main theorems) on the lock-level LTS of async_function_queue.rs for any number of posters, any programs, tasks "
          "that post/abort from inside, all interleavings: one_at_a_time, at_most_once, fifo, partition, no_take_after_abort (no pop after abort; at most one "
@@ -133,7 +137,9 @@ CLAIMED = {
  "C17": ("Theorems Rx.C17.callbacks_released_after_terminal/unsubscribe, released_forever, root_slots_empty, callbacks_only_in_root (generic over all machine "
          "programs): after a subscription ended no core object holds any of the three user callbacks, ever again. Operator closures and buffered items "
          "are owned by upstream observers' slots, cleared when cancelled (C06). NOT modelled: Arc reference counting itself - the per-run check counts live "
-         "tokens captured by every user callback, operator closure and item after the handles are dropped, for all three ways of ending.",
+         "tokens captured by every user callback, operator closure and item after the handles are dropped, for all three ways of ending, over operators, the four "
+         "subject types and connectables (sequential), and over scheduler / timer pipelines with ends in mid-flight under seeded shuttle schedules (concurrent "
+         "release supplement).",
          "§5 C17", "Lean 4 proof: generic ownership invariant over all machine programs + per-run token counting"),
  "C18": ("Theorems Rx.C18.* on the lock-level LTS of to_vec.rs (ready_only_after_terminal, result_exact, no_lost_wakeup, eventually_ready, polls_bound, "
          "pending_forever_if_silent) for all scripts and interleavings. Tie: every explored shuttle schedule of the real poll/callbacks is replayed "
